@@ -40,6 +40,7 @@ type Input struct {
 	CapRevocation     bool        `json:"capRevocation"`
 	Trust             string      `json:"trust"`
 	IdentityMatch     bool        `json:"identityMatch"`
+	WildcardIdentity  bool        `json:"wildcardIdentity"`
 	Expired           bool        `json:"expired"`
 	TimestampOk       bool        `json:"timestampOk"`
 	Revocation        string      `json:"revocation"`
@@ -174,6 +175,9 @@ func runCase(w *world, in Input, format string) Obs {
 	if !in.IdentityMatch {
 		identity = "x509.subject: C=US, ST=WA, O=Notary, CN=c02 somebody else"
 	}
+	if in.WildcardIdentity {
+		identity = "*"
+	}
 	ov := map[trustpolicy.ValidationType]trustpolicy.ValidationAction{}
 	for _, kv := range in.Override {
 		ov[trustpolicy.ValidationType(kv[0])] = trustpolicy.ValidationAction(kv[1])
@@ -232,7 +236,18 @@ func runCase(w *world, in Input, format string) Obs {
 	if in.PluginCallError {
 		sp.VerifyResp, sp.VerifyErr = nil, errors.New("plugin call failed")
 	}
-	opts := verifier.VerifierOptions{OCITrustPolicy: doc, RevocationCodeSigningValidator: rev}
+	// the same verifier also serves blobs: a statement of the SAME NAME with a very different level
+	blobLevel := "audit"
+	if in.Level == "audit" {
+		blobLevel = "strict"
+	}
+	bdoc := &trustpolicy.BlobDocument{Version: "1.0", TrustPolicies: []trustpolicy.BlobTrustPolicy{{
+		Name:                  "c02",
+		SignatureVerification: trustpolicy.SignatureVerification{VerificationLevel: blobLevel},
+		TrustStores:           []string{"ca:c02"},
+		TrustedIdentities:     []string{"*"},
+	}}}
+	opts := verifier.VerifierOptions{OCITrustPolicy: doc, BlobTrustPolicy: bdoc, RevocationCodeSigningValidator: rev}
 	if in.PluginState != "managerNil" {
 		opts.PluginManager = mgr
 	}
@@ -240,8 +255,17 @@ func runCase(w *world, in Input, format string) Obs {
 	if err != nil {
 		panic(fmt.Sprintf("c02: NewVerifierWithOptions: %v (level %s override %v)", err, in.Level, in.Override))
 	}
-	outcome, verr := v.Verify(context.Background(), target, env, notation.VerifierVerifyOptions{
-		ArtifactReference: "reg.example/c02@" + target.Digest.String(), SignatureMediaType: format})
+	vopts := notation.VerifierVerifyOptions{ArtifactReference: "reg.example/c02@" + target.Digest.String(), SignatureMediaType: format}
+	if in.PluginCallError || len(in.Override)%2 == 1 {
+		// history on one verifier: first a blob verification under the same-named blob statement
+		// (its result is irrelevant), then the verification under test
+		v.VerifyBlob(context.Background(), func(a digest.Algorithm) (ocispec.Descriptor, error) {
+			return ocispec.Descriptor{Digest: a.FromString("c02 blob"), Size: 8}, nil
+		}, env, notation.BlobVerifierVerifyOptions{SignatureMediaType: format, TrustPolicyName: "c02"})
+		store.Reset()
+		rev.Calls, mgr.Gets, sp.VerifyRequests, sp.MetadataCalls = nil, nil, nil, 0
+	}
+	outcome, verr := v.Verify(context.Background(), target, env, vopts)
 	o := Obs{Accepted: verr == nil, Results: []Result{}}
 	if outcome != nil {
 		for i, r := range outcome.VerificationResults {
@@ -339,6 +363,9 @@ func genInput(c *common.Ctx) Input {
 		in.Trust = pick(c, []string{"notFound", "emptyStores", "storeError"})
 	}
 	in.IdentityMatch = chance(c, 0.8)
+	if in.IdentityMatch && chance(c, 0.35) {
+		in.WildcardIdentity = true
+	}
 	in.Expired = chance(c, 0.2)
 	in.TimestampOk = chance(c, 0.8)
 	if chance(c, 0.7) {
